@@ -31,6 +31,9 @@ pub enum Step {
     CSet(u8, VerFrom),
     Set(u8),
     Delete(u8),
+    /// like CSet / Set, but writes the value every other "same" write (and the initial state) writes
+    CSetSame(u8, VerFrom),
+    SetSame(u8),
 }
 
 #[derive(Clone, Debug, PartialEq, Serialize, Deserialize)]
@@ -107,6 +110,10 @@ async fn run_case(case: &Case) -> Result<CaseReport, Failure> {
         step_no += 1;
         let fail = |obs: &str, e: String, a: String| Failure::new(obs, e, a).at(step_no);
         let cget = |wb: &Worterbuch, k: usize| -> Option<(Value, u64)> { wb.cget(&KEYS[k].to_owned()).ok() };
+        let same = matches!(step, Step::CSetSame(..) | Step::SetSame(_));
+        if same {
+            rep.counters.push(("writes_of_an_equal_value", 1));
+        }
         match step {
             Step::CGet(k) => {
                 let k = k as usize % 2;
@@ -123,7 +130,7 @@ async fn run_case(case: &Case) -> Result<CaseReport, Failure> {
                     observed[c].insert(k, (epoch[k], ver));
                 }
             }
-            Step::CSet(k, vf) => {
+            Step::CSet(k, vf) | Step::CSetSame(k, vf) => {
                 let k = k as usize % 2;
                 let read = last_read[c].get(&k).copied().unwrap_or(0);
                 let carried = match vf {
@@ -138,7 +145,7 @@ async fn run_case(case: &Case) -> Result<CaseReport, Failure> {
                     continue;
                 }
                 seq += 1;
-                let value = json!(format!("c{c}-w{seq}"));
+                let value = if same { json!("init") } else { json!(format!("c{c}-w{seq}")) };
                 let before = cget(&wb, k);
                 let cur = before.as_ref().map(|x| x.1).unwrap_or(0);
                 let res = wb.cset(KEYS[k].to_owned(), value.clone(), carried, cid(c), false).await;
@@ -169,10 +176,10 @@ async fn run_case(case: &Case) -> Result<CaseReport, Failure> {
                     }
                 }
             }
-            Step::Set(k) => {
+            Step::Set(k) | Step::SetSame(k) => {
                 let k = k as usize % 2;
                 seq += 1;
-                let value = json!(format!("c{c}-w{seq}"));
+                let value = if same { json!("init") } else { json!(format!("c{c}-w{seq}")) };
                 let before = cget(&wb, k);
                 let cur = before.as_ref().map(|x| x.1).unwrap_or(0);
                 let res = wb.set(KEYS[k].to_owned(), value.clone(), cid(c), false).await;
@@ -267,8 +274,10 @@ fn step() -> BoxedStrategy<Step> {
     let k = || prop_oneof![4 => Just(0u8), 1 => Just(1u8)];
     prop_oneof![
         10 => k().prop_map(Step::CGet),
-        12 => (k(), ver_from()).prop_map(|(k, v)| Step::CSet(k, v)),
+        9 => (k(), ver_from()).prop_map(|(k, v)| Step::CSet(k, v)),
+        3 => (k(), ver_from()).prop_map(|(k, v)| Step::CSetSame(k, v)),
         2 => k().prop_map(Step::Set),
+        1 => k().prop_map(Step::SetSame),
         1 => k().prop_map(Step::Delete),
     ]
     .boxed()
@@ -340,6 +349,22 @@ fn exhaustive_cases() -> Vec<Case> {
             }
         }
     }
+    // every case once more with all writers writing one and the same value (the value the key starts with)
+    let same: Vec<Case> = out
+        .iter()
+        .map(|c| {
+            let mut c = c.clone();
+            for p in c.programs.iter_mut() {
+                for s in p.iter_mut() {
+                    if let Step::CSet(k, v) = s.clone() {
+                        *s = Step::CSetSame(k, v);
+                    }
+                }
+            }
+            c
+        })
+        .collect();
+    out.extend(same);
     out
 }
 
@@ -494,7 +519,7 @@ pub fn run(cfg: &RunCfg) -> i32 {
     let (agg, v) = run_enumerated(cfg, &cases, check_case);
     check.add_part(
         "exhaustive",
-        &format!("{ncases} cases: every interleaving of 2 clients x 2 cget-then-cset cycles (70) and of 3 clients x 1 cycle (90) on one shared key, x every choice of carried version in {{read, read-1, read+1, 0}} per cset, x initial state in {{absent, plain, CAS@2}}; oracle: decision table of the statement per request (accepted iff carried == current, then current+1, rejected requests change nothing), one acknowledged cset per version, no client sees a version go backwards, final value == last acknowledged write; non-trivial = two clients competed for one version, one won and one lost; distinct = case"),
+        &format!("{ncases} cases: every interleaving of 2 clients x 2 cget-then-cset cycles (70) and of 3 clients x 1 cycle (90) on one shared key, x every choice of carried version in {{read, read-1, read+1, 0}} per cset, x initial state in {{absent, plain, CAS@2}}, x written values in {{unique per write, all writes equal to the initial value}}; oracle: decision table of the statement per request (accepted iff carried == current, then current+1, rejected requests change nothing), one acknowledged cset per version, no client sees a version go backwards, final value == last acknowledged write; non-trivial = two clients competed for one version, one won and one lost; distinct = case"),
         true,
         agg,
     );
@@ -507,7 +532,7 @@ pub fn run(cfg: &RunCfg) -> i32 {
         let (agg, v) = run_prop(cfg, "random", n, || case(max_steps), check_case);
         check.add_part(
             "random",
-            "2-4 client programs of cget/cset(read, read-1, read+1, 0, 1, u64 boundary)/set/delete steps on two shared keys with a generated interleaving and generated initial states (absent, plain, CAS@1..3, CAS@u64::MAX-3); same oracle",
+            "2-4 client programs of cget/cset(read, read-1, read+1, 0, 1, u64 boundary)/set/delete steps (a quarter of the writes write one and the same value, the others a unique one) on two shared keys with a generated interleaving and generated initial states (absent, plain, CAS@1..3, CAS@u64::MAX-3); same oracle",
             false,
             agg,
         );
